@@ -23,7 +23,7 @@ func genBatchRetry(r *rng, thorough bool, emit func(FlowScenario)) {
 						}
 						for rep := 0; rep < reps; rep++ {
 							t.next, t.errN = r.intn(30), r.intn(20)
-							cfg := BatchCfg{Budget: N, Fb: fb, Conc: conc, Stop: false, ExecS: ex, HasPost: true, Shape: "results", Build: r.pick([]string{"option", "builder", "bare"}),
+							cfg := BatchCfg{Budget: N, Wait: r.intn(2), Fb: fb, Conc: conc, Stop: false, ExecS: ex, HasPost: true, Shape: "results", Build: r.pick([]string{"option", "builder", "bare"}),
 								ExecVia: r.pick([]string{"", "", "copt", "cbuilder"})}
 							bs := BatchScript{N: 0, V: 0, Post: "=done"}
 							bs.Prep = batchItemsPrep(t, "results", nItems)
@@ -298,7 +298,13 @@ func genBatchSeq(r *rng, thorough bool, emit func(FlowScenario)) {
 						cfg := BatchCfg{Budget: budget, Fb: r.pick([]string{"pass", "custom"}), Conc: conc, Stop: stop,
 							ExecS: r.pick([]string{"res", "any"}), HasPost: true, Shape: shape, Build: r.pick([]string{"option", "builder", "bare"}),
 							ExecVia: r.pick([]string{"", "", "copt", "cbuilder"})}
+						if budget > 1 && r.chance(30) {
+							cfg.Wait = 1 // a (short) retry wait: retries must still happen item by item, in place
+						}
 						bs := BatchScript{N: 0, V: 0, Post: "=done"}
+						if r.chance(20) {
+							bs.Post = "!" + strconv.Itoa(70+r.intn(9)) // post itself fails (also on a cancelled context: reported once, as it is)
+						}
 						bs.Prep = batchItemsPrep(t, shape, n)
 						for i := 0; i < n; i++ {
 							var m uint = (1 << uint(budget+1)) - 1
